@@ -328,6 +328,17 @@ def run(tier):
                     if q.get("errors") or not ok:
                         c.finding("c07:site%d:%s->%s" % (sid, want, got), "with n declared at %s, the query occurrence at site %d binds to %s (errors %s); expected %s" % (D, sid, got, [e["msg"] for e in q.get("errors", [])][:2], want),
                                   dict(rep, site=sid, expected=want, got=got))
+    # ---- scenario charts: when the chart is done (whatever its instance lines were) its declarations are out of scope again
+    import lsczoo
+    ldocs = [(i, x, e) for (i, x, e) in lsczoo.docs() if e.get("unknown_in_system")]
+    lres = vf.run_jobs([{"id": "l%d" % k, "entry": "xml_buffer", "text": x, "structure": False} for k, (i, x, e) in enumerate(ldocs)], c.run_dir, variant="plain", name="c07lsc")
+    for k, (i, x, e) in enumerate(ldocs):
+        r = lres["l%d" % k]
+        nsites += 1
+        errs = r.get("dump", {}).get("doc", {}).get("errors", []) if r.get("dump", {}).get("outcome") == "return" else None
+        if errs is None or not any(q["path"] == "/nta/system" and "nknown_identifier" in q["msg"] and q["msg"].endswith(" " + e["unknown_in_system"]) for q in errs):
+            c.finding("c07:lsc:%s:chart-local-visible-in-system" % i, "scenario document `%s`: `%s` is declared only inside the chart, and its use in <system> is not reported as unknown: %s" % (
+                i, e["unknown_in_system"], [(q["msg"], q["path"]) for q in (errs or [])][:5]), {"doc": i, "xml": x})
     # ---- gantt binders
     for n, cs in enumerate(gcases):
         exp = {s["id"]: s["bind"] for s in cs["sites"]}
